@@ -2,7 +2,7 @@
 from ..facts import AnchorMissing, callee_def, op_place, op_const, is_bare
 from ..util import (SUBR, RTRAIT, ends, site, fn_key, callee_method, require, has_call, has_field, find_dispatch,
                     transitive_closures, closure_bodies_created_in, edge_is_true, src_field, edges_where,
-                    unreachable_without_edges, direct_field, consumer_of_ref, field_accesses)
+                    unreachable_without_edges, direct_field, consumer_of_ref, field_accesses, effects_in)
 from .. import options
 
 EXPLANATION = (
@@ -186,9 +186,11 @@ def rule_b(ctx):
     ffl = F.one("WrappedBlock::<T>::force_flush_line")
     cut = edges_where(ffl, lambda truth, src, a, s: truth is True and src_field(src) == ("render::text_renderer::WrappedBlock", "pad_blocks"))
     governed = [x for x in ffl.reachable() if unreachable_without_edges(ffl, x, cut)]
-    calls = sorted({callee_method(ffl.term(x)) for x in governed if ffl.term(x)["k"] == "call"})
-    ctx.check("pad_to" in calls and set(calls) <= {"pad_to", "as_ref", "default"}, "C15-B", "padding-governs-only-pad_to",
-              ffl.span, ffl.id, "calls governed by pad_blocks: %s" % calls)
+    eff = effects_in(ffl, governed)
+    calls = sorted({e[1] for e in eff if e[0] == "call"})
+    stores = sorted({e[1] for e in eff if e[0] == "store"})
+    ctx.check("pad_to" in calls and set(calls) <= {"pad_to", "as_ref", "default"} and not stores, "C15-B",
+              "padding-governs-only-pad_to", ffl.span, ffl.id, "governed by pad_blocks: calls %s, stores %s" % (calls, stores))
     pushes = ffl.calls(lambda cd, t: ends(cd, "Vec::<T, A>::push"))
     ctx.check(len(pushes) == 1 and not unreachable_without_edges(ffl, pushes[0][0], cut), "C15-B", "line-pushed-regardless-of-padding",
               ffl.span, ffl.id, "")
@@ -213,9 +215,12 @@ def rule_b(ctx):
         b = F.one(RTRAIT + nm)
         cut = edges_where(b, lambda truth, src, a, s: truth is True and src_field(src) == (R, "use_unicode_strikeout"))
         governed = [x for x in b.reachable() if unreachable_without_edges(b, x, cut)]
-        calls = sorted({callee_method(b.term(x)) for x in governed if b.term(x)["k"] == "call"})
-        ctx.check(op in calls and set(calls) <= {op, "expect"}, "C15-B", "%s:option-governs-only-filter-%s" % (nm, op), b.span, b.id,
-                  "calls governed: %s" % calls)
+        eff = effects_in(b, governed)
+        calls = sorted({e[1] for e in eff if e[0] == "call"})
+        stores = sorted({e[1] for e in eff if e[0] == "store"})
+        ctx.check(op in calls and set(calls) <= {op, "expect"} and not stores, "C15-B",
+                  "%s:option-governs-only-filter-%s" % (nm, op), b.span, b.id,
+                  "governed by the option: calls %s, stores %s" % (calls, stores))
         # the governed push/pop is on text_filter_stack
         okf = False
         for x in governed:
